@@ -106,6 +106,10 @@ OBS.append(dict(id="O-C01-env", properties=["C01"], backend="verus", spec="verus
     statement="the run-time environment list (Vars / Ctx): with view(): Seq<T>, new()@ = [], l.cons(x)@ = [x] + l@, l.skip(n)@ = l@.skip(min(n, |l@|)), l.head() = first element or None, l.get(n) = Some(l@[n]) iff n < |l@| - index i means the i-th most recent binding, for lists of any length (unbounded: loop invariant + Z3)",
     functions=["jaq-core/src/rc_list.rs::List::new", "jaq-core/src/rc_list.rs::List::cons", "jaq-core/src/rc_list.rs::List::head", "jaq-core/src/rc_list.rs::List::get", "jaq-core/src/rc_list.rs::List::skip"]))
 
+# ------------------------------------------------------------------------------------ jaq-fmts
+FM = "jaq-fmts/src/"
+ob("O-C14-cbor-neg", ["C14", "C05"], F, "c14_cbor_decode_negative", "CBOR decode: the real parse maps Header::Negative(n) to the machine integer -1 - n for every n <= i64::MAX (beyond that the value is a big integer: num-bigint, not decided)", [FM + "read/cbor.rs::parse"])
+ob("O-C14-cbor-pos", ["C14", "C05"], F, "c14_cbor_decode_positive", "CBOR decode: the real parse maps Header::Positive(n) to the machine integer n for every n <= i64::MAX", [FM + "read/cbor.rs::parse"])
 CFG = {
     "trusted_base": [
         "Kani 0.68.0 (MIR->GOTO translation of the pinned nightly's core/alloc)",
@@ -173,6 +177,12 @@ CFG = {
             "level": "other",
             "explanation": "Nearest-binding lookup rests on two index calculations: the run-time environment list (rc_list: Verus, unbounded, see O-C01-env) and the compile-time numbering (Compiler::var for imported / global variables, binds for arguments: Kani, bounded). Paper lemma (not machine-checked): var numbering + list semantics + 'every cons_* prepends exactly one binding' => a variable denotes its lexically nearest binding.",
             "not_decided": "evaluation order of compound filters (cartesian, pipe, ObjSingle, Path::combinations), bind_vars / bind_pat ordering, closures capturing the right Ctx, tail calls being invisible, live local binders in Compiler::var (BTreeMap), anything about outputs of actual programs",
+        },
+        "C14": {
+            "level": "other",
+            "explanation": "CBOR integer kernel, reader side: the arithmetic the real parse applies to the two integer major types (n -> n, n -> -1 - n via `neg as i128 ^ !0`) is proved exact for every argument that yields a machine integer, one harness per header variant. Loop-free; complete for that function and domain. The writer side (encode of a machine integer through ciborium-ll) did not finish in CBMC (5 attempts: symbolic execution walks every arm of the recursive encode) and is not claimed.",
+            "not_decided": "CBOR encode (writer side) and therefore the round trip itself; YAML (document structure, tags, anchors, plain-scalar quoting: must_quote + resolver on symbolic strings did not finish in 50 min), TOML keys and tables (toml-span), XML (xmlparser), CSV / TSV (aho-corasick), CBOR strings, floats, containers, big integers (num-bigint), --from / --to, well-formedness for independent readers",
+            "assumptions": ["ciborium-ll's Header values are taken as given (the decoder that produces them is not verified)"],
         },
     },
     "obligations": OBS,
